@@ -42,7 +42,7 @@ type c09scen struct {
 	Rep      int
 }
 
-var c09clients = append(append([]string{}, pki.AllCreds...), "plain-text", "abort-after-hello", "stall", "garbage")
+var c09clients = append(append([]string{}, pki.AllCreds...), "plain-text", "abort-after-hello", "stall", "garbage", "stall-x48", "stall-x300", "garbage-x48")
 
 func c09pki() *pki.PKI {
 	c09.once.Do(func() {
@@ -214,6 +214,28 @@ func (s *c09server) faulty(kind, tok string) (end func(), reply string) {
 			return end, "dial: " + err.Error()
 		}
 		return func() { c.Close() }, "connected, sending nothing"
+	case "stall-x48", "stall-x300", "garbage-x48":
+		// many clients at once: stalled (connected, nothing sent, kept open) or sending garbage
+		n := 48
+		if kind == "stall-x300" {
+			n = 300
+		}
+		var cs []net.Conn
+		for i := 0; i < n; i++ {
+			c, err := net.DialTimeout("tcp", addr, 5*time.Second)
+			if err != nil {
+				break
+			}
+			if kind == "garbage-x48" {
+				c.Write([]byte("\x16\x03\x01\x00\x05hello"))
+			}
+			cs = append(cs, c)
+		}
+		return func() {
+			for _, c := range cs {
+				c.Close()
+			}
+		}, fmt.Sprintf("%d connections held open", len(cs))
 	}
 	// a complete handshake attempt with the credential
 	d := &net.Dialer{Timeout: 5 * time.Second}
@@ -262,7 +284,18 @@ func c09run(idx int) run.Result {
 		good++
 		if why := s.goodTLS(fmt.Sprintf("tok-good-%d-%d", idx, good)); why != "" {
 			dumpN, dump := serverGoroutines()
-			if strings.Contains(why, "refused") || strings.Contains(dump, "Handshake") || dumpN == 0 {
+			// structural witness: the TLS accept loop is gone, or exists but is not parked in Accept
+			// (inside a handshake, waiting for a slot, a lock, ...), so it cannot be accepting anybody
+			tlsLoopAccepting, tlsLoopExists := false, false
+			for _, g := range strings.Split(dump, "\n\n") {
+				if strings.Contains(g, "(*Server).tlsServe(") {
+					tlsLoopExists = true
+					if strings.Contains(g, ".Accept(") {
+						tlsLoopAccepting = true
+					}
+				}
+			}
+			if strings.Contains(why, "refused") || !tlsLoopExists || !tlsLoopAccepting || dumpN == 0 {
 				res.Violate(fmt.Sprintf(sig, "containment-tls"), "a failed, stalled or abandoned handshake affects only that client: the TLS listener keeps accepting and serving other clients", fmt.Sprintf("%s: %s\nserver goroutines:\n%s", stage, why, clipS(dump, 1800)), desc)
 			} else {
 				res.Inconclusive = "valid client not served but no structural witness: " + why
@@ -391,7 +424,7 @@ func init() {
 	run.Register(&run.Prop{
 		ID: "C09", Level: "fault_enumeration",
 		Rule: func(tier string) string {
-			return "the scenario space {no rule, common-name rule, rule + password} x {no certificate, self-signed, foreign CA, expired, right CA wrong name, right name only on an intermediate, right CA right name, plain-text bytes on the TLS port, abort after ClientHello, stall, garbage} x position relative to two well-behaved client pairs {before, between, after} = 99 scenarios is enumerated completely (thorough: 5 repetitions), each against a fresh server configured through the file-based TLS path with a PKI minted at run time, on real loopback sockets. Oracle: (gate) a recording handler keyed by a per-client token: the client is served iff its handshake completes with a chain to the CA and (no rule or its LEAF common name matches); (containment) after the faulty client - and while a stalled one is still connected - a valid TLS client and a plain client must each dial, handshake and be answered; 'valid client not served' is a violation only with a structural witness (dial refused, or the goroutine profile shows the accept loop inside Handshake). Plus an in-process sweep of the certificate rule through hook H1 with fabricated connection states (0..3 peer certificates, the name at each chain position)"
+			return "the scenario space {no rule, common-name rule, rule + password} x {no certificate, self-signed, foreign CA, expired, right CA wrong name, right name only on an intermediate, right CA right name, plain-text bytes on the TLS port, abort after ClientHello, stall, garbage, 48 and 300 simultaneous stalled connections, 48 simultaneous garbage connections} x position relative to two well-behaved client pairs {before, between, after} = 126 scenarios is enumerated completely (thorough: 5 repetitions), each against a fresh server configured through the file-based TLS path with a PKI minted at run time, on real loopback sockets. Oracle: (gate) a recording handler keyed by a per-client token: the client is served iff its handshake completes with a chain to the CA and (no rule or its LEAF common name matches); (containment) after the faulty client - and while a stalled one is still connected - a valid TLS client and a plain client must each dial, handshake and be answered; 'valid client not served' is a violation only with a structural witness (dial refused, or the goroutine profile shows the accept loop inside Handshake). Plus an in-process sweep of the certificate rule through hook H1 with fabricated connection states (0..3 peer certificates, the name at each chain position)"
 		},
 		Exhaustive:    func(string) bool { return true },
 		Assumptions:   []string{"handshake faults are produced by a real client over loopback; faults needing control of TCP segmentation inside the handshake are not produced"},
